@@ -34,21 +34,26 @@ class UseGenerator(SimpleCodemod, NameResolutionMixin):
             # but it's a less compelling use case
             case cst.Name("any" | "all" | "sum" | "min" | "max"):
                 if self.is_builtin_function(original_node):
-                    match original_node.args[0].value:
+                    match updated_node.args[0].value:
                         case cst.ListComp(elt=elt, for_in=for_in):
                             self.add_change(original_node, self.change_description)
+                            first_arg = updated_node.args[0]
+                            # A bare generator is only allowed as the sole argument
+                            sole = len(updated_node.args) == 1 and not isinstance(
+                                first_arg.comma, cst.Comma
+                            )
                             return updated_node.with_changes(
                                 args=[
-                                    cst.Arg(
+                                    first_arg.with_changes(
                                         value=cst.GeneratorExp(
                                             elt=elt,  # type: ignore
                                             for_in=for_in,  # type: ignore
-                                            # No parens necessary since they are
-                                            # already included by the call expr itself
-                                            lpar=[],
-                                            rpar=[],
+                                            lpar=[] if sole else [cst.LeftParen()],
+                                            rpar=[] if sole else [cst.RightParen()],
                                         )
-                                    )
+                                    ),
+                                    # `start`, `key=`, `default=` are kept
+                                    *updated_node.args[1:],
                                 ],
                             )
 
